@@ -92,6 +92,8 @@ func (e *fnEnc) call(in ssa.Instruction, cc *ssa.CallCommon) []Term {
 			if inRepo {
 				// no contract: results are unknown; the heap keys it may write
 				// are inferred from its code (and its callees') by type safety
+				preH := e.curHeap.clone()
+				defer func() { e.preserveLocals(preH, e.curHeap) }()
 				ws := e.V.inferredWrites(callee)
 				if ws["*"] {
 					e.havocAllHeaps()
@@ -194,6 +196,7 @@ func (e *fnEnc) call(in ssa.Instruction, cc *ssa.CallCommon) []Term {
 		}
 	}
 	post := e.curHeap.clone()
+	e.preserveLocals(pre, post)
 	for _, c := range cands {
 		cn := e.V.CS.ByKey[c.Key]
 		guard := fmt.Sprintf("((_ is %s) %s)", c.Sym, f.S)
@@ -335,6 +338,7 @@ func (e *fnEnc) applyContract(con *Contract, args []Term, res []Term, pos token.
 		}
 	}
 	post := e.curHeap.clone()
+	e.preserveLocals(pre, post)
 	e.applyContractAt(con, args, res, pos, guard, name, pre, post, nil)
 	return res
 }
